@@ -316,4 +316,4 @@ ORACLES = {k: oracle for k in KINDS}
 
 
 def run(ctx):
-    drive(ctx, [Clause('C08/stream', case_strategy, oracle, quick=480, thorough=4000, quick_shards=16)])
+    drive(ctx, [Clause('C08/stream', case_strategy, oracle, quick=480, thorough=24000, quick_shards=16)])
